@@ -32,6 +32,7 @@ type Script struct {
 	CreateFail int  `json:"createFail,omitempty"` // the first CreateFail attempts fail before a process exists (executor creation fails)
 	OutBytes   int  `json:"out,omitempty"`        // bytes written to stdout per attempt (pattern encodes step/attempt)
 	ErrBytes   int  `json:"err,omitempty"`
+	DurMs      int  `json:"dur,omitempty"` // an attempt takes this long (SleepHook) before it ends by itself
 }
 
 type Event struct {
@@ -89,6 +90,8 @@ var (
 	}
 	// NowHook gives event time stamps.
 	NowHook = time.Now
+	// SleepHook lets an attempt with a duration take (virtual or real) time.
+	SleepHook = func(ms int) { time.Sleep(time.Duration(ms) * time.Millisecond) }
 	// ClockMsHook, when set, gives event time stamps directly (virtual milliseconds).
 	ClockMsHook func() int64
 	// YieldHook is called where a real process could be observed from outside
@@ -254,6 +257,9 @@ func (e *execImpl) Run() error {
 		}
 	}
 
+	if sc.DurMs > 0 {
+		SleepHook(sc.DurMs)
+	}
 	cond := func() bool {
 		if !sc.Hang {
 			return true
